@@ -5,12 +5,14 @@ import (
 	"errors"
 	"fmt"
 	"io"
+	"net/http"
 	"net/http/httptest"
 	"strings"
 	"testing"
 	"time"
 
 	connect "github.com/bufbuild/connect-go"
+	"google.golang.org/protobuf/proto"
 
 	"verifharness/ev"
 	"verifharness/memhttp"
@@ -152,6 +154,13 @@ type c16Case struct {
 	// SharedLast: the LAST group is one option value that was first applied,
 	// behind a different leading interceptor, by another client and handler.
 	SharedLast bool `json:"shared_last,omitempty"`
+	// Extra: an option that is NOT an interceptor list ("recover" = WithRecover,
+	// handler side only; "minbytes" = WithCompressMinBytes; "readmax" =
+	// WithReadMaxBytes; "codec" = WithCodec of the stock proto codec) sits at
+	// top-level position ExtraPos (0 = first) among the interceptor options.
+	// It must not move any interceptor.
+	Extra    string `json:"extra,omitempty"`
+	ExtraPos int    `json:"extra_pos,omitempty"`
 }
 
 func (k c16Case) key() string {
@@ -171,6 +180,9 @@ func (k c16Case) key() string {
 	if k.SharedLast {
 		side += "/sharedlast"
 	}
+	if k.Extra != "" {
+		side += fmt.Sprintf("/extra=%s@%d", k.Extra, k.ExtraPos)
+	}
 	if k.Tree != "" {
 		return fmt.Sprintf("n%d/nil%b/cuts%b/empty%d/tree%s/%s/%s/%s", k.N, k.NilMask, k.Cuts, k.Empty, k.Tree, k.Kind, side, k.Proto)
 	}
@@ -182,6 +194,54 @@ var c16WrapNames = []string{"flat", "WithOptions", "WithSideOptions", "Side(With
 // buildOptions returns the option values for the case, built with the real
 // constructors, plus the flat list of non-nil interceptor ids.
 func (k c16Case) build(log *[]string) (clientOpts []connect.ClientOption, handlerOpts []connect.HandlerOption, flat []int) {
+	clientOpts, handlerOpts, flat = k.buildInner(log)
+	if k.Extra == "" {
+		return
+	}
+	var both connect.Option
+	switch k.Extra {
+	case "minbytes":
+		both = connect.WithCompressMinBytes(16)
+	case "readmax":
+		both = connect.WithReadMaxBytes(1 << 20)
+	case "codec":
+		both = connect.WithCodec(c16ProtoCodec{})
+	}
+	pos := k.ExtraPos
+	if k.Extra == "recover" {
+		if pos > len(handlerOpts) {
+			pos = len(handlerOpts)
+		}
+		rec := connect.WithRecover(func(context.Context, connect.Spec, http.Header, any) error {
+			return connect.NewError(connect.CodeInternal, errors.New("recovered"))
+		})
+		handlerOpts = append(handlerOpts[:pos:pos], append([]connect.HandlerOption{rec}, handlerOpts[pos:]...)...)
+		return
+	}
+	hp, cp := pos, pos
+	if hp > len(handlerOpts) {
+		hp = len(handlerOpts)
+	}
+	if cp > len(clientOpts) {
+		cp = len(clientOpts)
+	}
+	handlerOpts = append(handlerOpts[:hp:hp], append([]connect.HandlerOption{both}, handlerOpts[hp:]...)...)
+	clientOpts = append(clientOpts[:cp:cp], append([]connect.ClientOption{both}, clientOpts[cp:]...)...)
+	return
+}
+
+// c16ProtoCodec is the stock binary codec under its stock name, registered again.
+type c16ProtoCodec struct{}
+
+func (c16ProtoCodec) Name() string { return "proto" }
+func (c16ProtoCodec) Marshal(m any) ([]byte, error) {
+	return proto.Marshal(m.(proto.Message))
+}
+func (c16ProtoCodec) Unmarshal(b []byte, m any) error {
+	return proto.Unmarshal(b, m.(proto.Message))
+}
+
+func (k c16Case) buildInner(log *[]string) (clientOpts []connect.ClientOption, handlerOpts []connect.HandlerOption, flat []int) {
 	items := make([]connect.Interceptor, k.N)
 	for i := 0; i < k.N; i++ {
 		if k.NilMask&(1<<i) == 0 {
@@ -683,7 +743,7 @@ func c16CtxEnds(t *testing.T, c *ev.Collector) {
 func TestC16(t *testing.T) {
 	c := ev.New("C16")
 	defer func() { _ = c.Finish() }()
-	c.SetRule("configuration enumeration: interceptor lists of length 0..n with nil at any subset of positions x every composition into consecutive WithInterceptors groups x an optional empty group at every position x every bundling of the groups into wrapper bundles x wrappers {flat, WithOptions, With{Client,Handler}Options, Side(WithOptions), WithOptions(WithOptions)} (all combinations for <=2 bundles, uniform for more), and every option tree (direct groups and nested WithOptions / With{Client,Handler}Options composites as siblings, nesting depth per bounds) over 2..4 single-interceptor groups, x {unary, client, server, bidi} x {client, handler} x protocols (rotating); each configuration is built with the real option constructors, one real call is made and the interceptor event log is compared with the reference onion of the flat non-nil list; non-trivial = at least one non-nil interceptor")
+	c.SetRule("configuration enumeration: interceptor lists of length 0..n with nil at any subset of positions x every composition into consecutive WithInterceptors groups x an optional empty group at every position x every bundling of the groups into wrapper bundles x wrappers {flat, WithOptions, With{Client,Handler}Options, Side(WithOptions), WithOptions(WithOptions)} (all combinations for <=2 bundles, uniform for more), and every option tree (direct groups and nested WithOptions / With{Client,Handler}Options composites as siblings, nesting depth per bounds) over 2..4 single-interceptor groups, x {unary, client, server, bidi} x {client, handler} x protocols (rotating); an option that is not an interceptor list (WithRecover, WithCompressMinBytes, WithReadMaxBytes, WithCodec) at every top-level position among 1..3 interceptors in every grouping; each configuration is built with the real option constructors, one real call is made and the interceptor event log is compared with the reference onion of the flat non-nil list; non-trivial = at least one non-nil interceptor")
 	c.Assume("interceptors observe only their own first Send/Receive per call", "one protocol per configuration (rotating): ordering logic is protocol independent")
 	if ev.ReplayFile() != "" {
 		var sk c16SchedCase
@@ -747,6 +807,24 @@ func TestC16(t *testing.T) {
 						ks.SharedLast = true
 						c.Case(ks.key(), nonNil > 0)
 						Bubble(t, func() { c16Check(c, ks) })
+					}
+				}
+				// an option that is not an interceptor list at every top-level position among the groups
+				if k.Empty < 0 && k.N >= 1 && k.N <= 3 && k.NilMask == 0 && len(k.Wrap) == 1 && (k.Wrap[0] == 0 || (k.Wrap[0] == 1 && k.Bundles != 0)) {
+					top := 1 + popcount(k.Cuts)
+					if k.Wrap[0] == 1 {
+						top = 1 + popcount(k.Bundles)
+					}
+					for _, extra := range []string{"recover", "minbytes", "readmax", "codec"} {
+						if extra == "recover" && client {
+							continue
+						}
+						for pos := 0; pos <= top; pos++ {
+							ke := k
+							ke.Extra, ke.ExtraPos = extra, pos
+							c.Case(ke.key(), true)
+							Bubble(t, func() { c16Check(c, ke) })
+						}
 					}
 				}
 				if idx%9973 == 0 {
